@@ -348,8 +348,9 @@ func runC06(r *Run) {
 					src := ff.TB.Of(cv.X)
 					has := false
 					for _, f := range at {
-						if f.Kind == "cmp" && (f.A.String() == src.String() && (f.Op == ">=" || f.Op == ">") && (f.B.Name == "0") ||
-							f.B.String() == src.String() && (f.Op == "<=" || f.Op == "<") && (f.A.Name == "0")) {
+						// exactly non-negativity: x >= 0 (or x > -1); `x > 0` would also exclude the epoch itself
+						if f.Kind == "cmp" && (f.A.String() == src.String() && (f.Op == ">=" && f.B.Name == "0" || f.Op == ">" && f.B.Name == "-1") ||
+							f.B.String() == src.String() && (f.Op == "<=" && f.A.Name == "0" || f.Op == "<" && f.A.Name == "-1")) {
 							has = true
 						}
 					}
